@@ -43,7 +43,7 @@ SED[ps_generic_discounts_reward]='s|probability \* ( model_.getExpectedReward(s,
 FILE[eps_weights_swapped]=include/AIToolbox/EpsilonPolicyInterface.hpp
 SED[eps_weights_swapped]='136s|return (1.0 - epsilon_) \* policy_.getActionProbability(s,a) + epsilon_ \* getRandomActionProbability();|return epsilon_ * policy_.getActionProbability(s,a) + (1.0 - epsilon_) * getRandomActionProbability();|'
 FILE[greedy_exact_ties_only]=include/AIToolbox/Bandit/Policies/Utils/QGreedyPolicyWrapper.hpp
-SED[greedy_exact_ties_only]='/getActionProbability(const size_t a) const {/,/^    }/s|if ( checkEqualGeneral(val, max) ) ++count;|if ( val == max ) ++count;|'
+SED[greedy_exact_ties_only]='/getActionProbability(const size_t a) const {/,/^    }/s|if ( checkEqualGeneral(q_\[aa\], max) ) ++count;|if ( q_[aa] == max ) ++count;|'
 FILE[model_sampleSR_reward_of_next]=src/MDP/Model.cpp
 SED[model_sampleSR_reward_of_next]='s|return std::make_tuple(s1, rewards_(s, a));|return std::make_tuple(s1, rewards_(s1, a));|'
 FILE[sparse_sampleSR_reward_of_next]=src/MDP/SparseModel.cpp
